@@ -4,6 +4,8 @@ use crate::report::{Config, Tier};
 
 pub mod c01;
 pub mod c04;
+pub mod c06;
+pub mod c07;
 pub mod c08;
 pub mod c09;
 
@@ -11,6 +13,8 @@ pub fn configs(prop: &str, tier: Tier) -> Option<Vec<Box<dyn Config>>> {
     Some(match prop {
         "C01" => c01::configs(tier),
         "C04" => c04::configs(tier),
+        "C06" => c06::configs(tier),
+        "C07" => c07::configs(tier),
         "C08" => c08::configs_c08(tier),
         "C12" => c08::configs_c12(tier),
         "C13" => c08::configs_c13(tier),
